@@ -95,19 +95,48 @@ def run(chk, F, G, rid="R-FRONT"):
         chk.ob(rid, "xta-state|%s" % r.sig, got == (int(has_inv), int(has_er)),
                "`%s` calls proc_location(.., %s, %s) although its shape has %s invariant and %s rate" %
                (r.sig, got[0], got[1], "an" if has_inv else "no", "a" if has_er else "no"), "src/parser.y:%s" % c.line)
-    # (c) arrows
+    # (c) arrows: a literal arrow token with a literal flag, or an arrow nonterminal (`EdgeArrow: T_ARROW {$$=true} |
+    #     T_UNCONTROL_ARROW {$$=false}`) whose semantic value is passed on
+    def arrow_nonterminal(nt):
+        """token -> flag value for a nonterminal whose alternatives are single arrow tokens with `$$ = const`."""
+        m = {}
+        for r2 in G.by_lhs.get(nt, []):
+            if len(r2.rhs) != 1 or r2.rhs[0] not in ("T_ARROW", "T_UNCONTROL_ARROW") or r2.action is None:
+                return None
+            val = None
+            for x in walk(r2.action):
+                if x.get("k") == "bin" and x.get("op") == "=" and x["lhs"].get("k") == "member" and \
+                        (x["lhs"].get("base") or {}).get("name") == "yyval":
+                    y = x["rhs"]
+                    while y.get("k") == "cast":
+                        y = y["e"]
+                    val = (1 if y.get("v") else 0) if y.get("k") in ("bool", "int") else y.get("cv")
+            if val is None:
+                return None
+            m[r2.rhs[0]] = val
+        return m or None
     na = 0
     for r, c in gram.get("proc_edge_begin", []):
-        rhs = G.host_rule(r).rhs
-        arrow = [s for s in rhs if s in ("T_ARROW", "T_UNCONTROL_ARROW")]
-        if len(arrow) != 1:
-            raise AnalysisBroken("edge production without exactly one arrow: %s" % G.host_rule(r).sig)
+        h = G.host_rule(r)
+        rhs = h.rhs
         v = G.arg_value(r, c.args[2])
         na += 1
-        chk.ob(rid, "xta-arrow|%s" % G.host_rule(r).sig, v[0] == "const" and v[1] == (1 if arrow[0] == "T_ARROW" else 0),
-               "`%s` creates the edge with control=%s" % (G.host_rule(r).sig, v[1:] if len(v) > 1 else v),
+        lit = [s_ for s_ in rhs if s_ in ("T_ARROW", "T_UNCONTROL_ARROW")]
+        nts = [(i + 1, s_, arrow_nonterminal(s_)) for i, s_ in enumerate(rhs) if not G.is_terminal(s_)]
+        nts = [(i, s_, m_) for i, s_, m_ in nts if m_]
+        if len(lit) == 1 and not nts:
+            ok = v[0] == "const" and v[1] == (1 if lit[0] == "T_ARROW" else 0)
+            why = "creates the edge with control=%s for the arrow %s" % (v[1:] if len(v) > 1 else v, lit[0])
+        elif len(nts) == 1 and not lit:
+            i, nt, m_ = nts[0]
+            ok = v[0] == "sym" and v[1] == i and m_ == {"T_ARROW": 1, "T_UNCONTROL_ARROW": 0}
+            why = "takes its arrow from `%s` (%s) but passes control=%s instead of that symbol's value" % (
+                nt, m_, "$%s.%s" % (v[1], v[2]) if v[0] == "sym" else v[1:] if len(v) > 1 else v)
+        else:
+            raise AnalysisBroken("edge production without exactly one arrow: %s" % h.sig)
+        chk.ob(rid, "xta-arrow|%s" % h.sig, ok, "`%s` %s: `-u->` and `->` are not told apart" % (h.sig, why),
                "src/parser.y:%s" % c.line)
-    if na < 4:
+    if na < 3:
         raise AnalysisBroken("only %d XTA edge productions" % na)
     # (d) per field, same attaching callback on both sides
     att = attach_fields(F, DB, "currentEdge")
